@@ -243,6 +243,12 @@ class Prov:
         args = tuple(self.operand(a, bi, si, depth + 1) for a in t["a"])
         if last in TRANSPARENT_LAST and len(args) == 1:
             return args[0]
+        # std spellings of a comparison / identities: x.is_positive() is x > 0; x.wrapping_add(0) is x
+        if len(args) == 1 and path.startswith(("core::num::", "std::num::")) and last in ("is_positive", "is_negative"):
+            return ("bin", "Gt" if last == "is_positive" else "Lt", args[0], ("const", 0, None, None))
+        if len(args) == 2 and path.startswith(("core::num::", "std::num::")) and last in ("wrapping_add", "saturating_add") \
+                and args[1][0] == "const" and args[1][1] == 0 and not isinstance(args[1][1], bool):
+            return args[0]
         if last in UNWRAP_LAST and len(args) >= 1:
             return ("q", args[0])
         if last == "branch" and len(args) == 1:
@@ -300,8 +306,10 @@ class Prov:
         if "raw" in rv:
             return self.place(rv["raw"], bi, si, depth + 1)
         if "bin" in rv:
-            return ("bin", rv["bin"], self.operand(rv["a"], bi, si, depth + 1),
-                    self.operand(rv["b"], bi, si, depth + 1))
+            a_, b_ = self.operand(rv["a"], bi, si, depth + 1), self.operand(rv["b"], bi, si, depth + 1)
+            if rv["bin"] in ("Add", "Sub", "AddUnchecked", "SubUnchecked") and b_[0] == "const" and b_[1] == 0 and not isinstance(b_[1], bool):
+                return a_       # x + 0, x - 0
+            return ("bin", rv["bin"], a_, b_)
         if "un" in rv:
             a = self.operand(rv["a"], bi, si, depth + 1)
             if rv["un"] == "PtrMetadata":
@@ -363,6 +371,8 @@ class Prov:
                         pass
                 if t[0] == "bin" and t[1].endswith("WithOverflow"):
                     if name == "0":
+                        if t[1] in ("AddWithOverflow", "SubWithOverflow") and t[3][0] == "const" and t[3][1] == 0 and not isinstance(t[3][1], bool):
+                            return t[2]
                         return ("bin", t[1][: -len("WithOverflow")], t[2], t[3])
                     return ("overflowflag", t)
                 if t[0] == "variant":
